@@ -117,6 +117,31 @@ type scenario struct {
 	Name  string
 	Conf  world.Conf
 	Build func(w *world.W, e *sched.Exec)
+	// UnlockPoints: the release of a thread's outermost lock is a scheduling point too
+	UnlockPoints bool
+}
+
+// foreignWrite is set by a stalled consumer's connection when a registered thread other than the
+// consumer's own session thread writes to it synchronously: that thread would block for as long as the
+// consumer does not read (a connection's writer goroutine may block; it is not a registered thread).
+var foreignWrite string
+
+// stalledPlayer is an RTMP subscriber whose peer stops reading as soon as play is acknowledged.
+func stalledPlayer(w *world.W, e *sched.Exec, name string, script []byte) {
+	c := sched.NewConn(name, script)
+	c.AtEOF = e.Yield
+	c.RefuseWrite = func() bool {
+		t := e.CallerThread()
+		if t == nil || t.Name == name {
+			return false
+		}
+		if foreignWrite == "" {
+			foreignWrite = fmt.Sprintf("thread %s writes synchronously to the connection of %s, which does not read: it blocks (with whatever it holds) until the consumer's write timeout", t.Name, name)
+		}
+		return true
+	}
+	srv := logic.VerifRtmpServer(w.SM)
+	e.Go(name, func() { rtmp.VerifHandleConn(srv, c) })
 }
 
 func rtmpThread(w *world.W, e *sched.Exec, name string, script []byte) {
@@ -337,6 +362,14 @@ func scenarios() []scenario {
 			var tick uint32
 			e.Go("tick", func() { w.SM.VerifTick(&tick) })
 		}},
+		// a subscriber that stops reading: only its own writer goroutine may ever block on its connection,
+		// at whatever instant of its admission a publisher's frame, a kick or the tick comes
+		{Name: "pub+stalled-play+tick", UnlockPoints: true, Conf: world.Conf{"rtmp.gop_num": 1}, Build: func(w *world.W, e *sched.Exec) {
+			rtmpThread(w, e, "publisher", rtmpScript("publish", "s", mediaMsgs(2)))
+			stalledPlayer(w, e, "player-stalled", rtmpScript("play", "s", nil))
+			var tick uint32
+			e.Go("tick", func() { w.SM.VerifTick(&tick) })
+		}},
 		{Name: "hls-pub+hls-sub+tick", Conf: world.Conf{"hls.enable": true, "hls.cleanup_mode": 0}, Build: func(w *world.W, e *sched.Exec) {
 			rtmpThread(w, e, "publisher", rtmpScript("publish", "s", mediaMsgs(2)))
 			e.Go("hls-get", func() {
@@ -367,6 +400,7 @@ type outcome struct {
 	Panic   string
 	Race    string
 	Locks   int
+	Foreign string // a thread that would block on a stalled consumer's connection
 }
 
 var raceLog string
@@ -405,12 +439,15 @@ func runOnce(sc scenario, prefix []int) outcome {
 	w := world.New(conf)
 	e := sched.New(prefix)
 	rtsp.VerifGoFn = func(f func()) { e.Go("rtsp-onsdp", f) }
+	e.UnlockPoints = sc.UnlockPoints
+	foreignWrite = ""
 	logic.VerifSetDefer(w.SM, func(ms int, f func()) { e.Go("hls-cleanup", f) })
 	defer logic.VerifSetDefer(w.SM, nil)
 	sc.Build(w, e)
 	e.Run(10 * time.Second)
 	var o outcome
 	o.Points, o.Dead, o.Hang, o.Diverge = e.Points, e.Dead, e.Hang, e.Diverge
+	o.Foreign = foreignWrite
 	if os.Getenv("C20_DEBUG") != "" {
 		for _, t := range e.Threads() {
 			fmt.Fprintf(os.Stderr, "C20_DEBUG thread %s locks=%d panic=%q\n", t.Name, t.Locks(), t.Panic())
@@ -499,6 +536,9 @@ func explore(sc scenario, bound int, deadline time.Time) childResult {
 		case o.Hang != "":
 			add("blocked-outside-mutexes", o.Hang, ch)
 			return
+		}
+		if o.Foreign != "" {
+			add("blocked-on-stalled-consumer", o.Foreign, ch)
 		}
 		if o.Panic != "" {
 			add("panic/"+firstLalFrame(o.Panic), strings.SplitN(o.Panic, "\n", 2)[0], ch)
@@ -635,6 +675,9 @@ func main() {
 				}
 				if o.Hang != "" {
 					res.Violations = append(res.Violations, childVio{"blocked-outside-mutexes", o.Hang, sch})
+				}
+				if o.Foreign != "" {
+					res.Violations = append(res.Violations, childVio{"blocked-on-stalled-consumer", o.Foreign, sch})
 				}
 				if o.Panic != "" {
 					res.Violations = append(res.Violations, childVio{"panic/" + firstLalFrame(o.Panic), strings.SplitN(o.Panic, "\n", 2)[0], sch})
